@@ -129,6 +129,12 @@ func TestC09(t *testing.T) {
 			r.NonTrivial(all, map[string]any{"files": srcs, "expect_stdout": ref.Stdout})
 		}
 		c := execCase{Kind: "bash-run", Property: "C09", Files: srcs, Main: "main.tsh", ExpectStdout: ref.Stdout, ExpectStatus: 0}
+		if gen.Uniform(0, 2).Draw(t, "after-other-target") == 0 {
+			// the script of the second target of one transpiler object (tsh -t batch -t bash): linking must not depend on what
+			// the object translated before
+			c.AfterOtherTarget = true
+			r.Class("second-target-of-one-transpiler-object")
+		}
 		out := runExecCase(c)
 		if out.OK {
 			return
